@@ -135,6 +135,8 @@ def run(ctx):
             ctx.dist("toy_" + (k if isinstance(k, str) else "tail"))
         ctx.sample({"stream": "replies-toy", "op": ops[4][:170]})
         judge.run_and_judge(ctx, "replies-toy", ops, [htoy], [drv], oracle=make_oracle(kinds), what="failure reply")
+    if htoy:
+        K.primitive_failures(ctx, htoy, "failure reply")
     if not hreal:                   # (already a failed obligation)
         return
     ops, kinds = build(ctx, hreal, "real")
